@@ -32,6 +32,11 @@ claim("C08", "Without the ascending assumption the solver shows NewSlimTrie reje
 claim("C13", "For one symbolic key/value list built in the four information levels, a hit in a mode storing more implies the same hit in every mode storing less; Complete is exact; retained keys answer identically; within the L2/L3 bounds.", "§7 C13")
 claim("C19", "String() never panics, renders one line per node and the retained (concrete) values in key order on every build path within the L2 bounds and on skeleton tries with short-node tables (sizes 2,3) and a 257-bit root. Exact label text and table sizes 4..10 are outside the claim.", "§7 C19")
 
+claim("C05", "Under assumption A-PB (protobuf modelled as an opaque injective codec over the message's proto3 normal form) Unmarshal(Marshal(t)) answers every query kind, scans and Stat identically for a symbolic query; re-marshalling and a second build give deep-equal messages under all map-iteration orders; sequences of Unmarshal/Reset leave no residue. Byte identity and the advertised size are facts about golang/protobuf's encoder: they are asserted on the natively replayed witnesses only.", "§7 C05", note="A-PB: proto.Marshal is a function of the message's proto3 normal form; Unmarshal(Marshal(m)) yields it in fresh memory.")
+claim("C07", "The 16 version bytes of the header are symbolic: for every version string up to the stated length the real ReadHeader/verStr/vers.IsCompatible/semver.Parse either reject with ErrIncompatible or the string is one of the six compatible versions (+build metadata); every strict prefix of a valid stream (real header bytes, opaque body) is rejected without panic and without handing the codec a partial body; after a rejected load a trie that held symbolic data answers as empty.", "§7 C07", note="Cuts inside real protobuf bodies are represented by opaque bodies (no body byte is read before the length check, which is what the harness decides).")
+claim("C11", "Sufficient condition decided with a write-set monitor: on every path of every read API (Get, GetID, RangeGet, Search, GetI32, Stat, ScanFrom, NewIter/next, String, Marshal down to the codec stub) with symbolic tries and queries no store hits an object reachable from the shared *SlimTrie that existed before the call, hence no data race and schedule-independent results; two interleaved iterators yield what each yields alone. A monitor finding is confirmed natively by running the call in two goroutines under go test -race before it is reported.", "§7 C11", note="Interleavings as such are not enumerated; golang/protobuf's Marshal (writes XXX_sizecache atomically) is trusted.", technique="bounded symbolic execution of the real code with a heap write-set monitor; SMT decides branches; findings confirmed with go test -race")
+claim("C20", "NewSlimTrie performs no store into the caller's key slice, value slice or option structs (monitor + equality, all 18 option cases incl. nil fields); Unmarshal performs no store into the input buffer, the loaded trie cannot reach it on the heap (codec stub aliasing pessimistically) and answers are unchanged after it is overwritten with symbolic bytes; Marshal output is unreachable from the trie and overwriting it changes nothing.", "§7 C20", note="A-PB: proto.Marshal returns fresh memory.")
+
 def main():
     checks = []
     for pid in ALL:
